@@ -8,6 +8,7 @@ import Driver.Fill
 import Driver.Live
 import Driver.Json
 import Driver.ArpCache
+import Driver.Iface
 
 /-!
 Line-protocol driver: one case per input line, `tag \t fields… \t observed`, one answer per line,
@@ -26,6 +27,7 @@ def dispatch (line : String) : String :=
   | "proc" :: rest => (handleProc rest).getD "BAD-CASE\t0"
   | "fill" :: rest => (handleFill rest).getD "BAD-CASE\t0"
   | "live" :: rest => (handleLive rest).getD "BAD-CASE\t0"
+  | "iface" :: rest => (handleIface rest).getD "BAD-CASE\t0"
   | "pports" :: rest => (handlePPorts rest).getD "BAD-CASE\t0"
   | "prate" :: rest => (handlePRate rest).getD "BAD-CASE\t0"
   | "ppayload" :: rest => (handlePPayload rest).getD "BAD-CASE\t0"
